@@ -52,6 +52,7 @@ var whitelist = []entry{
 	{file: "followlinks.go", name: "dedupePaths"},
 	{file: "stat_unix.go", name: "skipXattr"},
 	{file: "copy/copy.go", name: "containsWildcards", as: "copy_containsWildcards"},
+	{file: "copy/copy.go", name: "splitWildcards"},
 	{file: "types/stat.go", name: "IsDir", recv: "Stat"},
 	{file: "fs.go", name: "Size", recv: "StatInfo"},
 	{file: "fs.go", name: "Mode", recv: "StatInfo"},
@@ -197,6 +198,7 @@ var stdFuncs = map[string]struct {
 	"strings.TrimPrefix": {"Prims.strings_TrimPrefix", []Ty{{k: kString}, {k: kString}}, Ty{k: kString}},
 	"strings.TrimSuffix": {"Prims.strings_TrimSuffix", []Ty{{k: kString}, {k: kString}}, Ty{k: kString}},
 	"time.Unix":          {"Prims.time_Unix", []Ty{{k: kI64}, {k: kI64}}, Ty{k: kTime}},
+	"strings.Split":      {"Prims.strings_Split", []Ty{{k: kString}, {k: kString}}, Ty{k: kStrSlice}},
 }
 
 type untranslatable struct {
@@ -215,15 +217,17 @@ func bad(n ast.Node, format string, a ...interface{}) error {
 type variable struct {
 	name string
 	ty   Ty
+	coq  string // Gallina name: the Go name, or name__<k> for a variable that shadows one of an enclosing scope
 }
 
 // env: stack of scopes, innermost last; each scope an ordered list of variables
 type env struct {
 	scopes [][]variable
+	ctr    *int // shared by all clones: numbering of shadowing variables
 }
 
 func (e *env) clone() *env {
-	n := &env{}
+	n := &env{ctr: e.ctr}
 	for _, s := range e.scopes {
 		n.scopes = append(n.scopes, append([]variable(nil), s...))
 	}
@@ -242,16 +246,34 @@ func (e *env) lookup(name string) (Ty, bool) {
 	return Ty{}, false
 }
 
-// declare in the innermost scope; shadowing an enclosing scope's variable is outside the subset
-// (it would make the let-translation of joined branches unsound)
+// coqOf: the Gallina name of the innermost variable called name
+func (e *env) coqOf(name string) string {
+	for i := len(e.scopes) - 1; i >= 0; i-- {
+		for j := len(e.scopes[i]) - 1; j >= 0; j-- {
+			if e.scopes[i][j].name == name {
+				return e.scopes[i][j].coq
+			}
+		}
+	}
+	return ident(name)
+}
+
+// declare in the innermost scope.  A variable that shadows one of an enclosing scope gets a fresh Gallina
+// name (name__k): the code after a block is duplicated into its branches, so the `let` of an inner variable
+// stays in force there and must not capture the outer variable's name.
 func (e *env) declare(n ast.Node, name string, ty Ty) error {
 	if name == "_" {
 		return nil
 	}
+	coq := ident(name)
 	for i := 0; i < len(e.scopes)-1; i++ {
 		for _, v := range e.scopes[i] {
 			if v.name == name {
-				return bad(n, "declaration of %s shadows a variable of an enclosing scope", name)
+				if e.ctr == nil {
+					e.ctr = new(int)
+				}
+				*e.ctr++
+				coq = fmt.Sprintf("%s__%d", name, *e.ctr)
 			}
 		}
 	}
@@ -262,7 +284,7 @@ func (e *env) declare(n ast.Node, name string, ty Ty) error {
 			return nil
 		}
 	}
-	e.scopes[top] = append(e.scopes[top], variable{name, ty})
+	e.scopes[top] = append(e.scopes[top], variable{name, ty, coq})
 	return nil
 }
 
@@ -300,7 +322,12 @@ type tr struct {
 	funcs map[string]*funcSig // translated so far, by Go name
 	pkgs  map[string]*pkgInfo // by directory
 	pkg   *pkgInfo            // package of the function being translated
-	iota  int                 // value of iota while a constant's defining expression is translated (-1 otherwise)
+	dir   string              // its directory relative to the repository root: functions are registered per package
+	// calls of loop functions met inside an expression are bound in front of the statement (see hoist)
+	hoisted [][2]string // (call, variable)
+	nhoist  int
+	noHoist bool
+	iota    int // value of iota while a constant's defining expression is translated (-1 otherwise)
 	// records emitted so far (struct types used by translated functions)
 	records    map[string]bool
 	recordDefs []string
@@ -457,7 +484,7 @@ var reserved = map[string]bool{
 }
 
 func ident(name string) string {
-	if reserved[name] || strings.HasSuffix(name, "__") {
+	if reserved[name] || strings.Contains(name, "__") {
 		return name + "_"
 	}
 	return name
@@ -645,7 +672,7 @@ func (t *tr) expr(e ast.Expr, ev *env) (val, error) {
 			return val{ty: Ty{k: kNil}}, nil
 		}
 		if ty, ok := ev.lookup(x.Name); ok {
-			return val{code: ident(x.Name), ty: ty}, nil
+			return val{code: ev.coqOf(x.Name), ty: ty}, nil
 		}
 		if x.Name == "iota" && t.iota >= 0 {
 			return val{ty: Ty{k: kUntyped}, c: constant.MakeInt64(int64(t.iota))}, nil
@@ -1007,7 +1034,7 @@ func (t *tr) isOptCall(e ast.Expr, ev *env) bool {
 	if _, isVar := ev.lookup(id.Name); isVar {
 		return false
 	}
-	f, ok := t.funcs[id.Name]
+	f, ok := t.funcs[t.dir+":"+id.Name]
 	return ok && f.opt
 }
 
@@ -1024,7 +1051,7 @@ func (t *tr) callMulti(x *ast.CallExpr, ev *env) (string, []Ty, bool, error) {
 	name := ""
 	if ex, ok := t.externs[id.Name]; ok {
 		params, res, name = ex.params, ex.res, ident(id.Name)
-	} else if sig, ok := t.funcs[id.Name]; ok && !sig.opt {
+	} else if sig, ok := t.funcs[t.dir+":"+id.Name]; ok && !sig.opt {
 		params, res, name = sig.params, sig.res, sig.name
 	} else {
 		return "", nil, false, nil
@@ -1051,6 +1078,36 @@ func (t *tr) callMulti(x *ast.CallExpr, ev *env) (string, []Ty, bool, error) {
 }
 
 func (t *tr) call(x *ast.CallExpr, ev *env, allowOpt bool) (val, error) {
+	// filepath.Join(a, b, ..) and filepath.Join(s...): the list of elements
+	if t.selName(x.Fun) == "filepath.Join" {
+		if _, isVar := ev.lookup("filepath"); !isVar {
+			if x.Ellipsis != token.NoPos {
+				if len(x.Args) != 1 {
+					return val{}, bad(x, "variadic call")
+				}
+				v, err := t.expr(x.Args[0], ev)
+				if err != nil {
+					return val{}, err
+				}
+				if v.ty.k != kStrSlice {
+					return val{}, bad(x, "filepath.Join(x...) with x of type %s", v.ty)
+				}
+				return val{code: "(Prims.filepath_Join " + v.code + ")", ty: Ty{k: kString}}, nil
+			}
+			var parts []string
+			for _, a := range x.Args {
+				v, err := t.expr(a, ev)
+				if err != nil {
+					return val{}, err
+				}
+				if v.ty.k != kString {
+					return val{}, bad(a, "filepath.Join argument of type %s", v.ty)
+				}
+				parts = append(parts, v.code)
+			}
+			return val{code: "(Prims.filepath_Join [" + strings.Join(parts, "; ") + "])", ty: Ty{k: kString}}, nil
+		}
+	}
 	if x.Ellipsis != token.NoPos {
 		return val{}, bad(x, "variadic call")
 	}
@@ -1087,9 +1144,22 @@ func (t *tr) call(x *ast.CallExpr, ev *env, allowOpt bool) (val, error) {
 			}
 			return val{code: "(" + ident(f.Name) + a + ")", ty: ex.res[0]}, nil
 		}
-		if sig, ok := t.funcs[f.Name]; ok {
+		if sig, ok := t.funcs[t.dir+":"+f.Name]; ok {
 			if sig.opt && !allowOpt {
-				return val{}, bad(x, "call of loop function %s inside an expression (only `x := f(..)`, `x = f(..)`, `return f(..)`)", f.Name)
+				// a loop function called inside an expression: its call is bound in front of the statement
+				// (the function is total apart from running out of fuel, so evaluating it early — even where
+				// Go's && / || would skip it — changes nothing but a None into a None)
+				if t.noHoist || len(sig.res) != 1 {
+					return val{}, bad(x, "call of loop function %s inside a loop condition", f.Name)
+				}
+				a, err := args(sig.params)
+				if err != nil {
+					return val{}, err
+				}
+				t.nhoist++
+				v := fmt.Sprintf("c__%d", t.nhoist)
+				t.hoisted = append(t.hoisted, [2]string{"(" + sig.name + a + ")", v})
+				return val{code: v, ty: sig.res[0]}, nil
 			}
 			if len(sig.res) != 1 {
 				return val{}, bad(x, "call of multi-result function %s", f.Name)
@@ -1301,6 +1371,21 @@ var popMark = []ast.Stmt{popScope{&ast.EmptyStmt{}}}
 // stmts translates a statement list into one Gallina expression.  The code after an if/switch
 // is duplicated into the branches that can reach it (no join points: mutation = shadowing let).
 func (t *tr) stmts(list []ast.Stmt, c *ctx, ev *env, d int) (string, error) {
+	saved := t.hoisted
+	t.hoisted = nil
+	code, err := t.stmts1(list, c, ev, d)
+	hs := t.hoisted
+	t.hoisted = saved
+	if err != nil {
+		return "", err
+	}
+	for i := len(hs) - 1; i >= 0; i-- {
+		code = ind(d) + "match " + hs[i][0] + " with None => " + c.oof + " | Some " + hs[i][1] + " =>\n" + code + "\n" + ind(d) + "end"
+	}
+	return code, nil
+}
+
+func (t *tr) stmts1(list []ast.Stmt, c *ctx, ev *env, d int) (string, error) {
 	if len(list) == 0 {
 		if c.fall == "" {
 			return "", &untranslatable{token.NoPos, "control reaches the end of the function without return"}
@@ -1439,7 +1524,7 @@ func (t *tr) stmts(list []ast.Stmt, c *ctx, ev *env, d int) (string, error) {
 						} else if err := ev.declare(x, id.Name, res[i]); err != nil {
 							return "", err
 						}
-						pats = append(pats, ident(id.Name))
+						pats = append(pats, ev.coqOf(id.Name))
 					}
 					r, err := t.stmts(rest, c, ev, d)
 					if err != nil {
@@ -1539,9 +1624,53 @@ func (t *tr) stmts(list []ast.Stmt, c *ctx, ev *env, d int) (string, error) {
 			if !nilIsThen {
 				a, b = b, a
 			}
-			return fmt.Sprintf("%smatch %s with\n%s| None =>\n%s\n%s| Some %s =>\n%s\n%send", ind(d), ident(nilVar), ind(d), a, ind(d), ident(nilVar), b, ind(d)), nil
+			return fmt.Sprintf("%smatch %s with\n%s| None =>\n%s\n%s| Some %s =>\n%s\n%send", ind(d), ev.coqOf(nilVar), ind(d), a, ind(d), ev.coqOf(nilVar), b, ind(d)), nil
 		}
 		return fmt.Sprintf("%s%sif %s then\n%s\n%selse\n%s", pre, ind(d), cv.code, a, ind(d), b), nil
+	case *ast.DeclStmt:
+		// var x, y T  /  var x T = e  /  var x = e
+		g, ok := x.Decl.(*ast.GenDecl)
+		if !ok || g.Tok != token.VAR {
+			return "", bad(x, "declaration outside the subset (only var)")
+		}
+		var pre []ast.Stmt
+		lets := ""
+		for _, sp := range g.Specs {
+			vs := sp.(*ast.ValueSpec)
+			if len(vs.Values) != 0 {
+				if len(vs.Values) != len(vs.Names) || vs.Type != nil {
+					return "", bad(x, "var with initialiser and type, or a multi-value initialiser")
+				}
+				for i, n := range vs.Names {
+					pre = append(pre, &ast.AssignStmt{Lhs: []ast.Expr{n}, TokPos: n.Pos(), Tok: token.DEFINE, Rhs: []ast.Expr{vs.Values[i]}})
+				}
+				continue
+			}
+			ty, err := t.typeOf(vs.Type)
+			if err != nil {
+				return "", err
+			}
+			z, ok := zeroOf(ty)
+			if !ok {
+				return "", bad(x, "var of type %s", ty)
+			}
+			for _, n := range vs.Names {
+				if inTop(ev, n.Name) {
+					return "", bad(x, "%s redeclared", n.Name)
+				}
+				if err := ev.declare(n, n.Name, ty); err != nil {
+					return "", err
+				}
+				if n.Name != "_" {
+					lets += fmt.Sprintf("%slet %s := %s in\n", ind(d), ev.coqOf(n.Name), z)
+				}
+			}
+		}
+		r, err := t.stmts(concat(pre, rest), c, ev, d)
+		if err != nil {
+			return "", err
+		}
+		return lets + r, nil
 	case *ast.ExprStmt:
 		// panic(..): the function has no result on this path
 		if ce, ok := x.X.(*ast.CallExpr); ok {
@@ -1598,7 +1727,7 @@ func (t *tr) assign(n ast.Node, id *ast.Ident, rhs ast.Expr, define bool, rest [
 			return "", err
 		}
 	}
-	name := ident(id.Name)
+	name := ev.coqOf(id.Name)
 	if id.Name == "_" {
 		name = "_"
 	}
@@ -1826,14 +1955,16 @@ func loopParts(ev *env, nodes ...ast.Node) (state, free []variable) {
 		asg[n] = true
 	}
 	used := identsIn(nodes...)
-	seen := map[string]bool{}
 	vars := ev.all()
-	// innermost declaration wins; no shadowing inside a function, so names are unique
-	for _, v := range vars {
-		if seen[v.name] || !used[v.name] {
+	// the innermost declaration of a name is the one the loop can refer to
+	last := map[string]int{}
+	for i, v := range vars {
+		last[v.name] = i
+	}
+	for i, v := range vars {
+		if last[v.name] != i || !used[v.name] {
 			continue
 		}
-		seen[v.name] = true
 		if asg[v.name] {
 			state = append(state, v)
 		} else {
@@ -1849,7 +1980,7 @@ func tupleOf(vs []variable) (pat, ty string) {
 	}
 	var ns, ts []string
 	for _, v := range vs {
-		ns = append(ns, ident(v.name))
+		ns = append(ns, v.coq)
 		ts = append(ts, v.ty.coq())
 	}
 	if len(vs) == 1 {
@@ -1937,7 +2068,7 @@ func (t *tr) fuelFor(x *ast.ForStmt, ev *env) (code, why string, err error) {
 					if be.Op == token.LEQ {
 						extra = " + 1"
 					}
-					return fmt.Sprintf("(Datatypes.S (Z.to_nat (%s - %s%s)%%Z))", bc, ident(id.Name), extra),
+					return fmt.Sprintf("(Datatypes.S (Z.to_nat (%s - %s%s)%%Z))", bc, ev.coqOf(id.Name), extra),
 						fmt.Sprintf("%s is only ever increased, by at least 1 per iteration (post statement %s++), and the bound is not assigned in the loop: at most bound - %s iterations, plus one for the final test", id.Name, id.Name, id.Name), nil
 				}
 			}
@@ -2011,7 +2142,9 @@ func (t *tr) forLoop(x *ast.ForStmt, label string, rest []ast.Stmt, c *ctx, ev *
 	if x.Cond == nil {
 		return "", bad(x, "loop without condition")
 	}
+	t.noHoist = true
 	fuel, why, err := t.fuelFor(x, ev)
+	t.noHoist = false
 	if err != nil {
 		return "", err
 	}
@@ -2031,12 +2164,14 @@ func (t *tr) forLoop(x *ast.ForStmt, label string, rest []ast.Stmt, c *ctx, ev *
 	}
 	params, callArgs := "", ""
 	for _, v := range append(append([]variable(nil), free...), state...) {
-		params += fmt.Sprintf(" (%s : %s)", ident(v.name), v.ty.coq())
-		callArgs += " " + ident(v.name)
+		params += fmt.Sprintf(" (%s : %s)", v.coq, v.ty.coq())
+		callArgs += " " + v.coq
 	}
 	// body context
 	bev := ev.clone()
+	t.noHoist = true
 	cv, err := t.expr(x.Cond, bev)
+	t.noHoist = false
 	if err != nil {
 		return "", err
 	}
@@ -2117,6 +2252,17 @@ func (t *tr) rangeLoop(x *ast.RangeStmt, label string, rest []ast.Stmt, c *ctx, 
 		return "", bad(x.X, "range over %s (only []string; ranging over a string decodes UTF-8, which is outside the subset)", rv.ty)
 	}
 	state, free := loopParts(ev, x.Body)
+	// inside the body the value variable's name means the range variable, not an outer variable of that name
+	drop := func(vs []variable) []variable {
+		var out []variable
+		for _, v := range vs {
+			if v.name != vid.Name {
+				out = append(out, v)
+			}
+		}
+		return out
+	}
+	state, free = drop(state), drop(free)
 	t.nloop++
 	name := fmt.Sprintf("%s_loop%d", ident(t.goName), t.nloop)
 	spat, sty := tupleOf(state)
@@ -2127,12 +2273,12 @@ func (t *tr) rangeLoop(x *ast.RangeStmt, label string, rest []ast.Stmt, c *ctx, 
 	}
 	fparams, fargs, sparams, sargs := "", "", "", ""
 	for _, v := range free {
-		fparams += fmt.Sprintf(" (%s : %s)", ident(v.name), v.ty.coq())
-		fargs += " " + ident(v.name)
+		fparams += fmt.Sprintf(" (%s : %s)", v.coq, v.ty.coq())
+		fargs += " " + v.coq
 	}
 	for _, v := range state {
-		sparams += fmt.Sprintf(" (%s : %s)", ident(v.name), v.ty.coq())
-		sargs += " " + ident(v.name)
+		sparams += fmt.Sprintf(" (%s : %s)", v.coq, v.ty.coq())
+		sargs += " " + v.coq
 	}
 	rec := name + fargs + " l1__" + sargs
 	bc := &ctx{
@@ -2157,7 +2303,7 @@ func (t *tr) rangeLoop(x *ast.RangeStmt, label string, rest []ast.Stmt, c *ctx, 
 	if err != nil {
 		return "", err
 	}
-	vname := ident(vid.Name)
+	vname := bev.coqOf(vid.Name)
 	if vid.Name == "_" {
 		vname = "_"
 	}
@@ -2177,7 +2323,7 @@ func hasLoopOrOptCall(t *tr, fd *ast.FuncDecl) bool {
 			found = true
 		case *ast.CallExpr:
 			if id, ok := x.Fun.(*ast.Ident); ok {
-				if f, ok := t.funcs[id.Name]; ok && f.opt {
+				if f, ok := t.funcs[t.dir+":"+id.Name]; ok && f.opt {
 					found = true
 				}
 				if id.Name == "panic" {
@@ -2233,14 +2379,14 @@ func (t *tr) function(fd *ast.FuncDecl, e entry) (string, error) {
 		return "", bad(fd, "no body")
 	}
 	sig := &funcSig{name: ident(fd.Name.Name)}
-	key := fd.Name.Name
+	key := t.dir + ":" + fd.Name.Name
 	if e.recv != "" {
 		sig.name = ident(e.recv + "_" + fd.Name.Name)
 		key = e.recv + "." + fd.Name.Name
 	}
 	if e.as != "" {
-		// registered under the Gallina name only: functions of other packages cannot call it by its Go name
-		sig.name, key = ident(e.as), e.as
+		// registered per package under its Go name; only the Gallina name differs
+		sig.name = ident(e.as)
 	}
 	ev := &env{}
 	ev.push()
@@ -2329,6 +2475,7 @@ func (t *tr) function(fd *ast.FuncDecl, e entry) (string, error) {
 	}
 	sig.opt = hasLoopOrOptCall(t, fd)
 	t.cur, t.goName, t.aux, t.nloop = sig, fd.Name.Name, nil, 0
+	t.hoisted, t.nhoist, t.noHoist = nil, 0, false
 	if e.as != "" {
 		t.goName = e.as
 	}
@@ -2357,7 +2504,7 @@ func (t *tr) function(fd *ast.FuncDecl, e entry) (string, error) {
 	if len(exNames) > 0 {
 		exNote = "  Parametric in the untranslated (I/O) function(s) " + strings.Join(exNames, ", ") + "."
 	}
-	fmt.Fprintf(&b, "(* %s, func %s.%s%s *)\nDefinition %s%s : %s :=\n%s.\n", e.file, key, optNote, exNote, sig.name, params, rty, body)
+	fmt.Fprintf(&b, "(* %s, func %s.%s%s *)\nDefinition %s%s : %s :=\n%s.\n", e.file, strings.TrimPrefix(key, t.dir+":"), optNote, exNote, sig.name, params, rty, body)
 	t.funcs[key] = sig
 	return b.String(), nil
 }
@@ -2420,6 +2567,7 @@ func translate(root string, whitelist []entry) string {
 			continue
 		}
 		t.pkg = t.scanPkg(filepath.Dir(filepath.Join(root, e.file)))
+		t.dir = filepath.Dir(e.file)
 		nrec := len(t.recordDefs)
 		code, err := t.function(fd, e)
 		if err != nil {
